@@ -7,6 +7,25 @@ use bzip2::read::BzDecoder;
 use bzip2::write::BzEncoder;
 use std::io::{Read, Write};
 
+/// Decompress a BZip2 stream that is an intermediate stage of a multi-method block: the size of
+/// its output is not recorded anywhere, only an upper bound is known
+pub(crate) fn decompress_up_to(data: &[u8], max_size: usize) -> Result<Vec<u8>> {
+    let mut decompressed = Vec::new();
+    BzDecoder::new(data)
+        .take(max_size as u64 + 1)
+        .read_to_end(&mut decompressed)
+        .map_err(|e| decompression_error("BZip2", e))?;
+
+    if decompressed.len() > max_size {
+        return Err(decompression_error(
+            "BZip2",
+            format!("Decompressed size exceeds the bound of {max_size} bytes"),
+        ));
+    }
+
+    Ok(decompressed)
+}
+
 /// Decompress using BZip2
 pub(crate) fn decompress(data: &[u8], expected_size: usize) -> Result<Vec<u8>> {
     let mut decoder = BzDecoder::new(data);
